@@ -69,6 +69,7 @@ def run(rep, tier):
         rep.call(index_rules.cropped_row_slices, rep, prog, "C03.index-rows")
         rep.call(index_rules.table_index, rep, prog, "C03.table-index")
         rep.call(index_rules.unwraps, rep, prog, "C03.unwrap")
+        rep.call(index_rules.scratch_grow, rep, prog, "C03.scratch-grow")
         rep.call(dispatch_rules.t_precision, rep, prog, "C03.precision", report_empty=False)
         rep.call(dispatch_rules.headroom, rep, prog, "C03.headroom")
         rep.call(dispatch_rules.t_feature, rep, prog, "C03.feature")
